@@ -88,14 +88,35 @@ def class_modules():
              classes=[C('RandomSizedCrop', methods=['apply_to_dicom'], self_attrs={'height': 'Z', 'width': 'Z'}),
                       C('RandomSizedBBoxSafeCrop', methods=['apply_to_dicom'], self_attrs={'height': 'Z', 'width': 'Z'}),
                       C('CropAndPad', methods=['apply_to_dicom'], self_attrs={'keep_size': 'bool'})]),
+        dict(file='dicaugment/augmentations/transforms.py', coq_module='Gen_cls_pixeldropout',
+             requires=GEOM_REQ + ['Gen_pixel_dropout'],
+             classes=[C('PixelDropout', methods=['apply', 'apply_to_mask'], self_attrs={'mask_drop_value': 'opt:Q'})]),
         dict(file='dicaugment/core/transforms_interface.py', coq_module='Gen_cls_iface', requires=GEOM_REQ,
              classes=[C('DualTransform', methods=['apply_to_dicom'])]),
         dict(file='dicaugment/augmentations/dropout/coarse_dropout.py', coq_module='Gen_cls_coarse',
-             requires=GEOM_REQ, classes=[C('CoarseDropout', methods=['apply', 'apply_to_mask'])]),
+             requires=GEOM_REQ,
+             classes=[C('CoarseDropout', methods=['apply', 'apply_to_mask']),
+                      C('CoarseDropout', methods=[], coq_prefix='CoarseDropoutK',
+                        samplers={'_keypoint_in_hole': [('keypoint', 'kp'), ('hole', 'c6')],
+                                  'apply_to_keypoints': [('keypoints', 'kps'), ('holes', 'holes')]}),
+                      # hole sampling, integer-size specialisation (sizes in voxels) and fractional specialisation
+                      C('CoarseDropout', methods=[], coq_prefix='CoarseDropoutI',
+                        self_attrs={'min_holes': 'Z', 'max_holes': 'Z', 'min_height': 'Z', 'max_height': 'Z',
+                                    'min_width': 'Z', 'max_width': 'Z', 'min_depth': 'Z', 'max_depth': 'Z'},
+                        loop_samplers={'get_params_dependent_on_targets': [('tgt_image', 'arr')]}),
+                      C('CoarseDropout', methods=[], coq_prefix='CoarseDropoutF',
+                        self_attrs={'min_holes': 'Z', 'max_holes': 'Z', 'min_height': 'Q', 'max_height': 'Q',
+                                    'min_width': 'Q', 'max_width': 'Q', 'min_depth': 'Q', 'max_depth': 'Q'},
+                        loop_samplers={'get_params_dependent_on_targets': [('tgt_image', 'arr')]})]),
         dict(file='dicaugment/augmentations/dropout/grid_dropout.py', coq_module='Gen_cls_grid',
              requires=GEOM_REQ,
              classes=[C('GridDropout', methods=['apply', 'apply_to_mask'],
-                        self_attrs={'fill_value': 'Q', 'mask_fill_value': 'opt:Q'})]),
+                        self_attrs={'fill_value': 'Q', 'mask_fill_value': 'opt:Q'}),
+                      C('GridDropout', methods=[], coq_prefix='GridDropoutS',
+                        self_attrs={'ratio': 'Q', 'unit_size_min': 'opt:Z', 'unit_size_max': 'opt:Z',
+                                    'holes_number_x': 'opt:Z', 'holes_number_y': 'opt:Z', 'holes_number_z': 'opt:Z',
+                                    'shift_x': 'opt:Z', 'shift_y': 'opt:Z', 'shift_z': 'opt:Z', 'random_offset': 'bool'},
+                        loop_samplers={'get_params_dependent_on_targets': [('tgt_image', 'arr')]})]),
     ]
 
 
@@ -215,6 +236,8 @@ def base_modules():
                  # one voxel of the image (the function is element-wise): img is a float here
                  F('rescale_slope_intercept', [('img', 'Q'), ('slope', 'Q'), ('intercept', 'Q')]),
              ]),
+        dict(file='dicaugment/augmentations/functional.py', coq_module='Gen_pixel_dropout', requires=[],
+             functions=[F('pixel_dropout', [('image', 'arr'), ('drop_mask', 'bmask'), ('drop_value', 'Q')])]),
         dict(file='dicaugment/augmentations/crops/functional.py', coq_module='Gen_crops_functional',
              requires=['Gen_keypoints_utils', 'Gen_bbox_utils', 'Gen_geom_functional'],
              functions=[
